@@ -375,6 +375,18 @@ def check_instance(c, inst, mo, tag="main"):
            tuple(sorted(inst.get("_hist_kinds", {}).values())), r[0])
     c.count(key)
     c.hit(tag + "/" + r[0])
+    # input classes the check must reach (shown in the evidence distribution)
+    for v in V:
+        if v["kind"] == "path" and v["size"] > 1 and isinstance(v["nom"], list) and len(set(v["nom"])) > 1 and \
+                any(sd is not None and not (isinstance(sd, float) and math.isinf(sd)) for sd in (v["lo"], v["hi"])):
+            c.hit("class/vector-path-variable-unequal-component-nominals-finite-bound")
+    if E >= 2:
+        for v in V:
+            if v["kind"] == "state":
+                hs = [inst["hist"][m].get(v["name"]) for m in range(E)]
+                if all(h is not None and len(h["t"]) >= 2 for h in hs) and \
+                        len({(h["v"][-1], h["v"][-2]) for h in hs if not any(math.isnan(x) for x in h["v"][-2:])}) >= 2:
+                    c.hit("class/ensemble-histories-differ-between-members (t0 and previous point)")
     if r[0] == "raise":
         if mo is not None and mo != "raise":
             c.disagree("real transcribe raises, model does not", case, "ok", r[1])
